@@ -21,8 +21,11 @@ EXTENDS Naturals, Integers, Sequences, FiniteSets, TLC
 CONSTANTS CaseSpace,      \* set of [cid, expr, env] records explored by Init
           SwEagerBool,    \* F10: and/or and comparison chains evaluate all operands before combining
           SwOrSeedTrue,   \* F9: `or` is folded starting from True
-          SwAllFailLeaks  \* F19: the counterexample object of a failed all(<generator>) is handed to the enclosing
+          SwAllFailLeaks, \* F19: the counterexample object of a failed all(<generator>) is handed to the enclosing
                           \*      expression instead of the value False
+          SwNoStarred,    \* F21: a starred argument of a call (f(*xs)) cannot be re-computed at all
+          SwCompTargetLeaks \* F22: the loop variable of a comprehension that shadows a variable of the condition is
+                          \*      recorded (as the internal placeholder) and replaces the line of the shadowed variable
 
 VARIABLES case
 evars == <<case>>
@@ -49,7 +52,7 @@ PyEq(a, b) == IF VNumeric(a) /\ VNumeric(b) THEN a.n = b.n
               ELSE FALSE
 
 Arity(k) == CASE k \in {"int", "none", "true", "false", "name"} -> 0
-              [] k \in {"not", "neg", "ident", "len", "first", "attr", "isnone", "all_gt", "all_pos"} -> 1
+              [] k \in {"not", "neg", "ident", "len", "first", "attr", "isnone", "all_gt", "all_pos", "sum_star", "comp"} -> 1
               [] k \in {"add", "floordiv", "and", "or", "lt", "eq", "in"} -> 2
               [] k \in {"ifexp", "lt2", "and3", "or3"} -> 3
 
@@ -102,8 +105,16 @@ AllWalk(k, K, xs, i) ==
               ELSE IF e > K THEN AllWalk(k, K, xs, i + 1) ELSE Ok(VAllFail(e))
          ELSE IF e = NoneElem \/ ~(e > 0) THEN AllWalk(k, K, xs, i + 1)          \* filtered out
               ELSE IF (10 \div e) > K THEN AllWalk(k, K, xs, i + 1) ELSE Ok(VAllFail(e))
+\*   sum_star : total(*<c>)         where total = lambda *v: sum(v): the operand is unpacked into the call
+\*   comp     : [x for x in <c>]    a list comprehension whose loop variable is called like the argument x
+RECURSIVE SumSeq(_, _)
+SumSeq(s, i) == IF i > Len(s) THEN 0 ELSE s[i] + SumSeq(s, i + 1)
 Unary(k, v) ==
   CASE k = "not" -> Ok(VBool(~Truthy(v)))
+    [] k = "sum_star" -> IF v.t # "list" THEN Exc("TypeError")
+                         ELSE IF \E i \in DOMAIN v.s : v.s[i] = NoneElem THEN Exc("TypeError")
+                         ELSE Ok(VInt(SumSeq(v.s, 1)))
+    [] k = "comp" -> IF v.t = "list" THEN Ok(v) ELSE Exc("TypeError")
     [] k = "neg" -> IF VNumeric(v) THEN Ok(VInt(0 - v.n)) ELSE Exc("TypeError")
     [] k = "ident" -> Ok(v)
     [] k = "len" -> IF v.t = "list" THEN Ok(VInt(Len(v.s))) ELSE Exc("TypeError")
@@ -191,8 +202,15 @@ Rec(p) ==
   LET k == Expr[p].k IN
   IF k = "name" THEN RName(p)
   ELSE IF Arity(k) = 0 THEN [st |-> "ok", v |-> Leaf(p), tc |-> {p}, val |-> {<<p, Leaf(p)>>}]
+  ELSE IF k = "sum_star" /\ SwNoStarred THEN
+    \* visit_Call visits the callee, then gives up on the ast.Starred argument before touching its value
+    [st |-> "exc", v |-> PH, tc |-> {p}, val |-> {}]
   ELSE IF Arity(k) = 1 THEN
-    LET a == Rec(Child1(p)) IN
+    LET a0 == Rec(Child1(p))
+        \* the comprehension is compiled and executed as a whole (its iterable is visited first); with the deviation
+        \* the shadowing loop variable gets a line of its own: position 0 stands for "the text x"
+        a == IF k = "comp" /\ SwCompTargetLeaks THEN [a0 EXCEPT !.val = @ \cup {<<0, PH>>}] ELSE a0
+    IN
     IF a.st # "ok" THEN [st |-> a.st, v |-> a.v, tc |-> a.tc \cup {p}, val |-> a.val]
     ELSE LET r == Unary(k, a.v) IN
          \* (the counterexample of a failed quantifier is recorded for display; the enclosing expression gets False)
@@ -281,10 +299,10 @@ RecChain(p) ==
 -----------------------------------------------------------------------------
 (* What the message shows: names, attributes, calls and subscripts that got *)
 (* a recorded value (icontract/_represent.py).                              *)
-ShownKind(k) == k \in {"name", "ident", "len", "first", "attr", "all_gt", "all_pos"}
+ShownKind(k) == k \in {"name", "ident", "len", "first", "attr", "all_gt", "all_pos", "sum_star", "comp"}
 PyRes  == Eval(1)
 RecRes == Rec(1)
-Shown  == {pv \in RecRes.val : ShownKind(Expr[pv[1]].k)}
+Shown  == {pv \in RecRes.val : pv[1] = 0 \/ ShownKind(Expr[pv[1]].k)}
 
 Violated == PyRes.st = "ok" /\ ~Truthy(PyRes.v)        \* the condition evaluates falsy: a violation is due
 NoneFree == \A i \in DOMAIN case.env : case.env[i].t # "none"
